@@ -77,13 +77,14 @@ def panels_run(eng, SL, cell_x, cell_y, glued, fail, concrete_u=None, units=None
             # singular along the whole diagonal of a diagonal box
             claim = z3.And(z3bool(a1 == c1), z3bool(b1 == d1), z3.Not(seam_meets))
         elif rule == 'duffy' and mirror == 'x':
-            # the only singular point of the closed box is the corner (b', c')
-            claim = z3.And(z3bool(b1 == c1), z3bool(a1 < b1), z3bool(c1 < d1), z3.Not(seam_meets))
+            # the only singular point of the closed box is the corner (b', c'); touching pairs are split so that
+            # the Duffy box is square (up to the code's own 1e-10)
+            claim = z3.And(z3bool(b1 == c1), z3bool(a1 < b1), z3bool(c1 < d1), z3.Not(seam_meets), square)
         elif rule == 'duffy' and mirror == 'y':
             # the only singular point of the closed box is the corner (a', d'): through the diagonal (a' = d')
             # or through the closing seam (a' = 0, d' = L); never both, and nowhere else
             via_diag = z3.And(z3bool(a1 == d1), z3bool(a1 < b1), z3bool(c1 < d1), z3.Not(seam_meets))
-            via_seam = z3.And(seam_pt, z3bool(b1 < c1))
+            via_seam = z3.And(seam_pt, z3bool(b1 < c1), square)
             claim = z3.Xor(via_diag, via_seam)
         elif rule == 'loglog' and mirror == 'x':
             near = z3bool(c1 - b1 < L - d1 + a1) if glued else z3.BoolVal(True)
